@@ -2,6 +2,7 @@
 C03 — content stays on its page and every page makes progress (PM model, DESIGN.md §4 C03).
 -/
 import WpModel.Model.Paginate
+import WpModel.Lemmas.SegmentPages
 
 namespace Wp.C03
 open Wp Wp.PM
@@ -218,5 +219,93 @@ theorem remakePage_total (d : Doc) (index : Nat) (resume : Option Resume) (np : 
   split
   · rename_i h; exact absurd h (key _ _)
   · rfl
+
+/-! ### every page makes progress
+
+`pos box σ` = units of the box consumed before the resume position `σ` (one unit per line, one per
+box: `size`), read exactly as the layout reads its `skip_stack`. Same hypotheses as C01: no fixed
+`height`, `orphans, widows ≥ 1`. -/
+
+/-- A position never reaches the size of the box. -/
+theorem pos_lt_size (box : PBox) (σ : Option Resume) : pos box σ < size box := PM.pos_lt_size box σ
+
+/-- **Strict progress of `block_level_layout`**: whenever a layout returns a fragment and a resume position,
+that position is strictly later than the skip position it was given — on an empty page or not, at any
+depth (so a box is never returned "fragmented at its own start"). -/
+theorem layout_progress (box : PBox) (hN : NoFixedHeight box) (hW : WellFormed box) (c : Ctx) (idx : Nat)
+    (y bs : Rat) (skip : Option Resume) (cb pie : Bool) (adjL : List Rat) (f : Frag) (r : Resume)
+    (hf : (layoutBox c box idx y bs skip cb pie adjL).frag = some f)
+    (hr : (layoutBox c box idx y bs skip cb pie adjL).resume = some r) :
+    pos box skip < pos box (some r) := by
+  have := box_spec box (good_of box hN hW) c idx y bs skip cb pie adjL
+  rw [hr] at this
+  exact boxPost_progress _ _ _ _ _ this hf
+
+/-- **Strict progress of pages**: a non-blank page either finishes the document or hands a strictly later
+resume position to the next page. -/
+theorem page_progress (d : Doc) (hN : NoFixedHeight d.root) (hW : WellFormed d.root) (index : Nat)
+    (resume : Option Resume) (np : NextPage) (right : Bool) (p : Page)
+    (hp : remakePage d index resume np right = some p) (hnb : p.type.blank = false) :
+    p.resume = none ∨ pos d.root resume < pos d.root p.resume := by
+  obtain ⟨_, h2⟩ := remakePage_lines d (good_of _ hN hW) index resume np right p hp
+  cases hr : p.resume with
+  | none => left; rfl
+  | some r => right; exact (h2 hnb).2 r hr
+
+private theorem isBlank_flip (side : Option Bool) (right : Bool) (h : isBlank side right = true) :
+    isBlank side (!right) = false := by
+  cases side with
+  | none => cases right <;> simp [isBlank] at h
+  | some s => cases s <;> cases right <;> simp [isBlank] at h ⊢
+
+/-- A blank page changes nothing and is followed by a non-blank page (so two consecutive pages always
+make progress). -/
+theorem blank_then_nonblank (d : Doc) (index : Nat) (resume : Option Resume) (np : NextPage) (right : Bool)
+    (p : Page) (hp : remakePage d index resume np right = some p) (hb : p.type.blank = true) :
+    p.resume = resume ∧ p.nextPage = np ∧
+    ∀ p', remakePage d (index + 1) p.resume p.nextPage (!right) = some p' → p'.type.blank = false := by
+  obtain ⟨hbl, h1, _⟩ := remakePage_spec d index resume np right p hp
+  obtain ⟨hr, hn, _⟩ := h1 hb
+  refine ⟨hr, hn, ?_⟩
+  intro p' hp'
+  obtain ⟨hbl', _, _⟩ := remakePage_spec d (index + 1) p.resume p.nextPage (!right) p' hp'
+  rw [hbl', hn]
+  apply isBlank_flip
+  rw [← hbl]; exact hb
+
+/-! Non-vacuity: a two-paragraph document on 25px pages; page 2 resumes inside the first paragraph
+(position 2 of 9 units) and hands over position 4. -/
+def exSt : PStyle where
+  mt := 0
+  mb := 0
+  pt := 0
+  pb := 0
+  bt := 0
+  bb := 0
+  height := none
+  minH := 0
+  maxH := none
+  brkBefore := .auto
+  brkAfter := .auto
+  brkInside := .auto
+  clone := false
+  page := ""
+  orphans := 1
+  widows := 1
+  isRoot := false
+
+def exDoc : Doc :=
+  { pageH := 25, rootLtr := true,
+    root := .block 0 { exSt with isRoot := true } [.para 1 3 10 exSt, .para 2 3 10 { exSt with brkBefore := .left }] }
+
+example : NoFixedHeight exDoc.root ∧ WellFormed exDoc.root ∧ size exDoc.root = 9 := by
+  simp [exDoc, NoFixedHeight, NoFixedHeightList, WellFormed, WellFormedList, exSt, size, sizeList]
+
+example : (remakePage exDoc 1 (some (.node 0 (some (.node 0 (some (.line 2)))))) { brk := none, page := none } false).map
+      (fun p => (p.type.blank, pos exDoc.root (some (.node 0 (some (.node 0 (some (.line 2)))))), pos exDoc.root p.resume)) =
+    some (false, 2, 4) := by decide +kernel
+
+example : (paginate exDoc 20).map (fun ps => ps.map (fun p => (p.type.blank, pos exDoc.root p.resume))) =
+    some [(false, 2), (false, 4), (true, 4), (false, 6), (false, 0)] := by decide +kernel
 
 end Wp.C03
